@@ -60,6 +60,25 @@ def gen_cases(rng, tier):
         if s == e:
             continue
         cases.append(dict(kind="fi", wall=w + [w[0]], s=s, e=e))
+    # --- walls with a REPEATED vertex (a limiter contour given closed and closed again by the constructor; a duplicated point): a zero-length
+    # edge must never be reported, also when the segment passes through the repeated vertex
+    for _ in range(60 if tier == "quick" else 1500):
+        n = rng.randint(3, 6)
+        if rng.random() < 0.5:
+            w = list(rng.choice(polys))
+        else:
+            w = [(dy(), dy()) for _ in range(n)]
+        k = rng.randrange(len(w))
+        w2 = w[:k + 1] + [w[k]] + w[k + 1:] if rng.random() < 0.5 else w + [w[0]]       # duplicate inside / closed twice
+        v = w[k] if len(w2) > len(w) and w2[k] == w2[k + 1] else w[0]
+        if rng.random() < 0.6:      # through the repeated vertex
+            d = rng.choice([(1.0, 0.5), (0.5, 1.0), (-1.0, 0.25), (0.25, -1.0), (1.0, 1.0), (1.0, -0.75)])
+            s, e = (v[0] - d[0], v[1] - d[1]), (v[0] + d[0], v[1] + d[1])
+        else:
+            s, e = (dy(), dy()), (dy(), dy())
+            if s == e:
+                continue
+        cases.append(dict(kind="fi", wall=w2 + [w2[0]], s=s, e=e))
     # --- polygons: area / clockwise on OPEN vertex lists whose closing edge matters
     na = 150 if tier == "quick" else 3000
     for _ in range(na):
